@@ -122,6 +122,7 @@ type checkCtx struct {
 	goBin                     string
 	raceRun                   bool
 	watchdog                  bool
+	repeat                    int
 	outBase                   string
 }
 
@@ -324,11 +325,16 @@ func cmdCheck(args []string) int {
 			}
 			seenKey[key] = true
 			nrun++
+			c.repeat = 1
+			if v.ScheduleDependent {
+				c.repeat = 3000
+			}
 			if r2, err2 := c.runNative(prog, specs, []nativeCase{{Pkg: v.Pkg, ID: id, Harness: v.Harness, Params: v.Params, Inputs: v.Model}}, pkgOf, pp.Native); err2 == nil || len(r2) > 0 {
 				for id2, r := range r2 {
 					results[id2] = r
 				}
 			}
+			c.repeat = 1
 		}
 		nativeS += time.Since(tn).Seconds()
 	}
@@ -710,7 +716,7 @@ func (c *checkCtx) runNative(prog *Program, specs []*HarnessSpec, cases []native
 		sp := prog.pkgs[p]
 		rel := strings.TrimPrefix(strings.TrimPrefix(p, modPath), "/")
 		var sb strings.Builder
-		sb.WriteString("//go:build verif\n\npackage " + sp.Pkg.Name() + "\n\nimport (\n\t\"encoding/json\"\n\t\"fmt\"\n\t\"os\"\n\t\"runtime\"\n\t\"testing\"\n\t\"time\"\n")
+		sb.WriteString("//go:build verif\n\npackage " + sp.Pkg.Name() + "\n\nimport (\n\t\"encoding/json\"\n\t\"fmt\"\n\t\"os\"\n\t\"runtime\"\n\t\"strconv\"\n\t\"testing\"\n\t\"time\"\n")
 		if mode == "synctest" {
 			sb.WriteString("\t\"testing/synctest\"\n")
 		}
@@ -788,20 +794,34 @@ func (c *checkCtx) runNative(prog *Program, specs []*HarnessSpec, cases []native
 			fmt.Printf("VERIF-ENDCASE\n")
 			continue
 		}
-		verifWrap(t, func() {
-			defer func() {
-				if r := recover(); r != nil {
-					if _, ok := r.(verifAssumeFailed); ok {
-						fmt.Printf("VERIF-ASSUME-FAILED\n")
-						return
+		// a counterexample that depends on the schedule is repeated (VERIF_REPEAT) until it shows:
+		// the native scheduler cannot be told which interleaving to take
+		reps := 1
+		if n, err := strconv.Atoi(os.Getenv("VERIF_REPEAT")); err == nil && n > 1 {
+			reps = n
+		}
+		for rep := 0; rep < reps; rep++ {
+			before := verifFailCount
+			panicked := false
+			verifWrap(t, func() {
+				defer func() {
+					if r := recover(); r != nil {
+						if _, ok := r.(verifAssumeFailed); ok {
+							fmt.Printf("VERIF-ASSUME-FAILED\n")
+							return
+						}
+						panicked = true
+						fmt.Printf("VERIF-PANIC %v\n", r)
 					}
-					fmt.Printf("VERIF-PANIC %v\n", r)
-				}
-			}()
-			verifLoadCase(verifCase{Inputs: c.Inputs}, os.Stdout)
-			verifResetClock()
-			verifDispatch(c.Harness, c.Params)
-		})
+				}()
+				verifLoadCase(verifCase{Inputs: c.Inputs}, os.Stdout)
+				verifResetClock()
+				verifDispatch(c.Harness, c.Params)
+			})
+			if panicked || verifFailCount != before {
+				break
+			}
+		}
 		fmt.Printf("VERIF-ENDCASE\n")
 	}
 }
@@ -834,6 +854,9 @@ func (c *checkCtx) runNative(prog *Program, specs []*HarnessSpec, cases []native
 		}
 		if c.watchdog {
 			env = append(env, "VERIF_WATCHDOG=20")
+		}
+		if c.repeat > 1 {
+			env = append(env, fmt.Sprintf("VERIF_REPEAT=%d", c.repeat))
 		}
 		cmd := exec.Command(goBin, args...)
 		cmd.Dir = c.repo
